@@ -115,6 +115,17 @@ func (_this *Session) GetBuilderGeneratorForType(dstType reflect.Type) BuilderGe
 		return storedBuilderGenerator.(BuilderGenerator)
 	}
 
+	defer func() {
+		if r := recover(); r != nil {
+			// Don't leave the placeholder behind: every later use of this
+			// type would wait forever for a generator that never arrives.
+			_this.builderGenerators.Delete(dstType)
+			builderGenerator = func(ctx *Context) Builder { panic(r) }
+			wg.Done()
+			panic(r)
+		}
+	}()
+
 	builderGenerator = _this.defaultBuilderGeneratorForType(dstType)
 	wg.Done()
 	_this.builderGenerators.Store(dstType, builderGenerator)
